@@ -132,7 +132,8 @@ theorem RelF.withVars_congr {m : Nat → Nat} {s : St} {rs : Ref.St} {fr : Nat} 
     simp [withVars]
   refine ⟨by rw [h.len, hlenb], fun i x => by rw [hkey]; exact h.vars i x, ⟨f0', hf0', hp0'.trans hp0, hfl0⟩, ?_, h.bottom,
     ⟨k, hc.congr hext (fun _ _ => rfl), ?_⟩, h.fscopes, h.heap, h.trace, ?_,
-    fun i x v hv => ValIn.mono (h.vok i x v hv) hgood, HeapIn.mono h.hok hgood⟩
+    fun i x v hv => ValIn.mono (h.vok i x v hv) hgood, HeapIn.mono h.hok hgood,
+    h.lz.mono (FnsKeep.of_fns_eq rfl) (Nat.le_refl _) (fun _ _ => rfl) hrext (fun _ _ => rfl) rfl (by simp [withVars])⟩
   · intro i f hf p hp
     rw [withVars_frames_get] at hf
     by_cases hc' : fr = i ∧ fr < rs.frames.length
